@@ -11,7 +11,10 @@ package main
 //     functions the rules look up by name (anchors), is not exported, is not (mutually) recursive,
 //     has no defer/go/closures/named results/variadics, and is small;
 //   * the call stands alone as a statement, is the only right-hand side of an assignment /
-//     short declaration / return, or is the (possibly negated) condition of an if;
+//     short declaration / return, is the (possibly negated) condition of an if, or is the init statement
+//     `if a, b := h(...); cond { T } else { E }` of an if (c15norm2.go: every return of h continues with the
+//     branch its values select);
+//   * h(g(...)) with g returning one value per parameter binds the values to fresh parameter locals in one statement;
 //   * arguments that are plain identifiers / constants are substituted, all others are bound to
 //     fresh locals in evaluation order; all locals and labels of the callee get fresh names;
 //   * `return` inside the callee becomes result assignment + leaving a labelled one-shot switch
@@ -30,6 +33,7 @@ import (
 	"os"
 	"reflect"
 	"sort"
+	"strconv"
 	"strings"
 
 	"golang.org/x/tools/go/packages"
@@ -61,7 +65,12 @@ type c15Encl struct {
 	isLoop bool
 }
 
-const c15MaxInlineNodes = 160
+// (a variable so that a property-specific pass may raise it for its own run: c18norm.go)
+var c15MaxInlineNodes = 160
+
+// c15PropagateSlices: c15PropagateIn also substitutes single-definition locals defined by a slice expression
+// (off by default, see c15PureExpr; switched on by c18norm.go for the SGR consumers only).
+var c15PropagateSlices = false
 
 // c15Normalise inlines helper calls in the given packages (short names, in
 // dependency order). Returns a description of what was done (for evidence).
@@ -73,6 +82,25 @@ func c15Normalise(c *Ctx, shorts []string, anchors map[string]bool) {
 // no propagation of single-definition locals): the mode used by the global pre-normalisation.
 func c15NormaliseOpt(c *Ctx, shorts []string, anchors map[string]bool, propagate bool) {
 	counter := 0
+	// fresh names are <name>_inl<N>: start above every N an earlier normalisation pass left in the text
+	for _, sh := range shorts {
+		if pk := c.P.Pkg(sh); pk != nil {
+			for _, f := range pk.Syntax {
+				ast.Inspect(f, func(n ast.Node) bool {
+					if id, ok := n.(*ast.Ident); ok {
+						for _, mark := range []string{"_inl", "_encl"} {
+							if i := strings.LastIndex(id.Name, mark); i >= 0 {
+								if k, err := strconv.Atoi(id.Name[i+len(mark):]); err == nil && k > counter {
+									counter = k
+								}
+							}
+						}
+					}
+					return true
+				})
+			}
+		}
+	}
 	// 0. the functions the rules look up by name are brought into the declaration form the rules know
 	//    (plain function <-> method on its first parameter); call sites follow
 	if propagate {
@@ -337,6 +365,13 @@ func (in *c15Inliner) tryStmt(st ast.Stmt) ([]ast.Stmt, bool) {
 			if as, ok := t.Init.(*ast.AssignStmt); ok && len(as.Rhs) == 1 {
 				if call, ok := unparen(as.Rhs[0]).(*ast.CallExpr); ok {
 					if fn, fd := in.callee(call); fn != nil && in.simpleHelper(fn, fd) {
+						// if a, b := h(...); cond(a, b) { T } else { E }: every return of h continues with the branch
+						// its values select (path preserving, like the plain condition position)
+						if as.Tok == token.DEFINE {
+							if rep, ok := in.inline(call, &c15Site{kind: "condinit", assign: as, ifs: t}); ok {
+								return rep, true
+							}
+						}
 						init := t.Init
 						t.Init = nil
 						return []ast.Stmt{&ast.BlockStmt{List: []ast.Stmt{init, t}}}, true
@@ -494,6 +529,15 @@ func (in *c15Inliner) inline(call *ast.CallExpr, site *c15Site) ([]ast.Stmt, boo
 		if nres == 0 {
 			return in.refuse(4)
 		}
+	case "condinit":
+		if nres != len(site.assign.Lhs) || nres == 0 {
+			return in.refuse(19)
+		}
+		for _, l := range site.assign.Lhs {
+			if _, ok := l.(*ast.Ident); !ok {
+				return in.refuse(20)
+			}
+		}
 	}
 	// imports used by the helper body must be available under the same name in the caller's file
 	if in.fileOf[fd] != in.curFile {
@@ -573,7 +617,66 @@ func (in *c15Inliner) inline(call *ast.CallExpr, site *c15Site) ([]ast.Stmt, boo
 		}
 	}
 	ai := 0
+	// h(g(...)) with g returning one value per parameter of h: the values are bound to fresh parameter locals
+	// in one statement (no other argument form exists in that case)
+	var spreadStmts []ast.Stmt
+	nparams := 0
 	for _, f := range fd.Type.Params.List {
+		nparams += len(f.Names)
+	}
+	if len(call.Args) == 1 && nparams > 1 {
+		tup, isTup := in.info.TypeOf(call.Args[0]).(*types.Tuple)
+		if !isTup || tup.Len() != nparams {
+			return in.refuse(21)
+		}
+		var lhs []ast.Expr
+		var decls, keep []ast.Stmt
+		identical, anyNamed := true, false
+		k := 0
+		for _, f := range fd.Type.Params.List {
+			for _, nm := range f.Names {
+				if nm.Name == "_" {
+					lhs = append(lhs, ast.NewIdent("_"))
+					k++
+					continue
+				}
+				pobj := in.info.Defs[nm]
+				anyNamed = true
+				rename[pobj] = nm.Name + sfx
+				lhs = append(lhs, ast.NewIdent(nm.Name+sfx))
+				if !types.Identical(tup.At(k).Type(), pobj.Type()) {
+					identical = false
+				}
+				ts, ok := in.typeString(pobj.Type())
+				if !ok {
+					return in.refuse(22)
+				}
+				texpr, err := parser.ParseExpr(ts)
+				if err != nil {
+					return in.refuse(23)
+				}
+				decls = append(decls, &ast.DeclStmt{Decl: &ast.GenDecl{Tok: token.VAR, Specs: []ast.Spec{&ast.ValueSpec{Names: []*ast.Ident{ast.NewIdent(nm.Name + sfx)}, Type: texpr}}}})
+				keep = append(keep, &ast.AssignStmt{Lhs: []ast.Expr{ast.NewIdent("_")}, Tok: token.ASSIGN, Rhs: []ast.Expr{ast.NewIdent(nm.Name + sfx)}})
+				k++
+			}
+		}
+		rhs := []ast.Expr{c15Copy(call.Args[0], nil).(ast.Expr)}
+		switch {
+		case !anyNamed:
+			spreadStmts = append(spreadStmts, &ast.AssignStmt{Lhs: lhs, Tok: token.ASSIGN, Rhs: rhs})
+		case identical:
+			spreadStmts = append(spreadStmts, &ast.AssignStmt{Lhs: lhs, Tok: token.DEFINE, Rhs: rhs})
+		default:
+			spreadStmts = append(spreadStmts, decls...)
+			spreadStmts = append(spreadStmts, &ast.AssignStmt{Lhs: lhs, Tok: token.ASSIGN, Rhs: rhs})
+		}
+		spreadStmts = append(spreadStmts, keep...)
+		ai = 1
+	}
+	for _, f := range fd.Type.Params.List {
+		if spreadStmts != nil {
+			break
+		}
 		for _, nm := range f.Names {
 			if ai >= len(call.Args) {
 				return in.refuse(9)
@@ -624,6 +727,7 @@ func (in *c15Inliner) inline(call *ast.CallExpr, site *c15Site) ([]ast.Stmt, boo
 		// keep "declared and not used" away
 		pre = append(pre, &ast.AssignStmt{Lhs: []ast.Expr{ast.NewIdent("_")}, Tok: token.ASSIGN, Rhs: []ast.Expr{ast.NewIdent(b.obj.Name() + sfx)}})
 	}
+	pre = append(pre, spreadStmts...)
 	// locals and labels of the helper
 	ast.Inspect(fd.Body, func(n ast.Node) bool {
 		if id, ok := n.(*ast.Ident); ok {
@@ -686,6 +790,12 @@ func (in *c15Inliner) inline(call *ast.CallExpr, site *c15Site) ([]ast.Stmt, boo
 	var declare []ast.Stmt
 	usedBreak := false
 	relabelOK := true
+	var ci *c15CondInit
+	if site.kind == "condinit" {
+		if ci = in.newCondInit(site, fd, body, rets, rename, sfx); ci == nil {
+			return in.refuse(24)
+		}
+	}
 	retTo := func(r *ast.ReturnStmt, last bool) []ast.Stmt {
 		var out []ast.Stmt
 		switch site.kind {
@@ -704,9 +814,42 @@ func (in *c15Inliner) inline(call *ast.CallExpr, site *c15Site) ([]ast.Stmt, boo
 			if site.assign.Tok == token.DEFINE && tailOnly {
 				tok = token.DEFINE
 			}
+			{
+				// x := nil and _ = nil do not compile and x := 1 gives x the constant's default type: an untyped
+				// result is converted to the declared result type, which is what the call gave the variable
+				if len(r.Results) == nres {
+					for i, e := range r.Results {
+						if id, isID := lhs[i].(*ast.Ident); tok != token.DEFINE && !(isID && id.Name == "_") {
+							continue
+						}
+						tv, typed := in.info.Types[in.origOf[e]]
+						rt := sig.Results().At(i).Type()
+						if !typed || !(tv.IsNil() || (tv.Value != nil && !types.Identical(types.Default(tv.Type), rt))) {
+							continue
+						}
+						ts, ok := in.typeString(rt)
+						if !ok {
+							relabelOK = false
+							continue
+						}
+						texpr, err := parser.ParseExpr(ts)
+						if err != nil {
+							relabelOK = false
+							continue
+						}
+						r.Results[i] = &ast.CallExpr{Fun: &ast.ParenExpr{X: texpr}, Args: []ast.Expr{e}}
+					}
+				}
+			}
 			out = append(out, &ast.AssignStmt{Lhs: lhs, Tok: tok, Rhs: r.Results})
 		case "return":
 			return []ast.Stmt{r}
+		case "condinit":
+			stmts, ok := ci.expand(r)
+			if !ok {
+				relabelOK = false
+			}
+			out = append(out, stmts...)
 		case "cond":
 			thenB, elseB := site.ifs.Body, site.ifs.Else
 			cpBranch := func(b ast.Stmt) ast.Stmt {
@@ -745,7 +888,7 @@ func (in *c15Inliner) inline(call *ast.CallExpr, site *c15Site) ([]ast.Stmt, boo
 		}
 		return out
 	}
-	if site.kind == "cond" {
+	if site.kind == "cond" || site.kind == "condinit" {
 		// the caller's branches are copied to every return: they must not contain a `break` that would now bind to the one-shot switch
 		if len(rets) > 4 || (len(rets) > 1 && c15CountNodes(site.ifs) > 60) {
 			return in.refuse(14)
@@ -1317,8 +1460,12 @@ func c15PureExpr(info *types.Info, e ast.Expr) bool {
 				}
 			}
 			pure = false
-		case *ast.FuncLit, *ast.TypeAssertExpr, *ast.SliceExpr:
+		case *ast.SliceExpr:
 			// (a slice expression is pure, but it usually names a piece of data the rules identify by that name)
+			if !c15PropagateSlices {
+				pure = false
+			}
+		case *ast.FuncLit, *ast.TypeAssertExpr:
 			pure = false
 		case *ast.UnaryExpr:
 			if t.Op == token.ARROW {
